@@ -95,8 +95,49 @@ def seq_run(b, hist, timeout_ms, sub="seq"):
     for k in range(len(hist)):
         v = res.get(str(k), "MISSING")
         f = v.split("\t")
-        out.append((f[0].split(" ")[0], sorted(x for x in (f[1] if len(f) > 1 else "").split(",") if x)))
+        out.append((f[0].split(" ")[0], sorted(x for x in (f[1] if len(f) > 1 else "").split(",") if x), f[2] if len(f) > 2 else "?"))
     return out
+
+
+BARE = [("bare:hello", "print hello; close self"), ("bare:two", "print one; print two; close self"),
+        ("bare:cut", "x : 1 <- new close self; wait x; print bare; close self")]
+LATE = [("late:illegal", "prc[a] : 1 = print leaked; close self\n$"), ("late:nul", "prc[a] : 1 = print leaked; close self\n\x00"),
+        ("late:illegal-defs", "type T = 1\nlet f() : T = print leakedf; close self\nprc[a] : T = print leaked; close self\n@ @"),
+        ("late:syntax", "prc[a] : 1 = print leaked; close self\nprc["), ("late:comment", "prc[a] : 1 = print leaked; close self\n/* open"),
+        ("late:exec", "let f() : 1 = print leakedf; close self\nexec f()\n#")]
+
+
+def nc_histories(rng, safe):
+    """host pattern `seqnc` (the CLI's --notypecheck): programs that are one bare expression, preceded by programs that
+    fail late - after complete statements have been read - and by accepted programs; only texts that are safe to run
+    unchecked (accepted closed programs, bare expressions) ever reach the interpreter here"""
+    hs = []
+    for l in LATE:
+        for b in BARE:
+            hs.append([l, b])
+            hs.append([b, l, b, l, b])
+    for _ in range(6):
+        pool = safe + BARE + LATE
+        hs.append([rng.choice(pool) for _ in range(rng.randint(4, 8))])
+    return hs
+
+
+def strander(n, m):
+    """an accepted OPEN program that leaves n*m goroutines blocked for ever (dropping an assumed name sends on a nil channel)"""
+    names = ["x%d" % i for i in range(n * m)]
+    lines = ["type A = affine 1", "assuming " + ", ".join("%s : A" % x for x in names)]
+    for i in range(n):
+        lines.append("prc[a%d] : A = %sprint dropped; close self" % (i, "".join("drop %s; " % x for x in names[i * m:(i + 1) * m])))
+    return "\n".join(lines) + "\n"
+
+
+def open_histories(tier):
+    """host pattern `seqopen`: goroutines stranded by earlier runs accumulate in the host; whatever they hold (slots of a
+    pool, a semaphore, a shared table) must not starve a later run"""
+    hello = ("ok:hello", "prc[p] : 1 = print hello; close self")
+    k, n, m = (12, 20, 50) if tier == "quick" else (40, 20, 50)
+    st = ("strander:%dx%d" % (n, m), strander(n, m))
+    return [[hello] + [st] * k + [hello, st, hello]]
 
 
 def run(b, ps, tier, seed):
@@ -121,18 +162,32 @@ def run(b, ps, tier, seed):
         hists.append(h)
     hists.extend(redef_histories())
     tmo = 250 if tier == "quick" else 350
-    # alone: every distinct program in its own fresh process (a history of length one)
+    # which accepted closed programs are safe to run unchecked: those the model accepts and runs to the end
+    pre = S.run_tool(b.model, "run-async-0", [(str(k), "", t) for k, (_, t) in enumerate(pl)], timeout=1200)
+    safe = [pl[k] for k in range(len(pl)) if pre.get(str(k), "").split("\t")[0] == "RAN"]
+    plans = [(h, sub) for h in hists for sub in ("seq", "seqre")]
+    # unchecked runs lack the annotations the polarized interpreter reads (known finding F19): only programs without
+    # forwards / contraction are run that way
+    simple = [("ok:hello", "prc[p] : 1 = print hello; close self"),
+              ("ok:two", "prc[a] : 1 = wait b; print ok; close self\nprc[b] : 1 = print first; close self"),
+              ("ok:call", "let z() : 1 = print zero; close self\nprc[a] : 1 = n <- new z(); wait n; print got; close self")]
+    plans += [(h, "seqnc") for h in nc_histories(rng, simple)]
+    plans += [(h, "seqopen") for h in open_histories(tier)]
+    alone_sub = {"seq": "seq", "seqre": "seq", "seqnc": "seqnc", "seqopen": "seqopen"}
+    # alone: every distinct program in its own fresh process (a history of length one), under the same host pattern
     distinct = {}
-    for h in hists:
+    need_alone = set()
+    for h, sub in plans:
         for i, t in h:
             distinct[t] = i
+            need_alone.add((alone_sub[sub], t))
 
-    def alone(t):
-        return t, seq_run(b, [("x", t)], tmo)[0]
+    def alone(st):
+        return st, seq_run(b, [("x", st[1])], tmo, st[0])[0]
     alone_res = {}
     with concurrent.futures.ThreadPoolExecutor(max_workers=8) as ex:
-        for t, r in ex.map(alone, list(distinct)):
-            alone_res[t] = r
+        for st, r in ex.map(alone, sorted(need_alone)):
+            alone_res[st] = r
     # model: verdict class and prints of each distinct program
     cases = [(str(k), "", t) for k, t in enumerate(distinct)]
     mres = S.run_tool(b.model, "run-async-0", cases, timeout=1200)
@@ -142,23 +197,28 @@ def run(b, ps, tier, seed):
         tag = {"RAN": "RAN", "REJECT": "REJECT", "REJECT-INTERNAL": "REJECT", "PARSE-ERR": "PARSE-ERR"}.get(m["tag"], m["tag"])
         model_res[t] = (tag, sorted(m["prints"]))
 
+    def agrees_with_model(sub, t, w):
+        if sub in ("seqnc", "seqopen"):       # the model is not consulted for unchecked / open runs: history vs alone only
+            return True
+        return w[:2] == model_res[t] or model_res[t][0] in ("OUTOFFUEL",)
+
     def one(hs):
         h, sub = hs
         return h, sub, seq_run(b, h, tmo, sub)
     checked, deviations, artefacts = 0, 0, 0
     verdicts = collections.Counter()
     with concurrent.futures.ThreadPoolExecutor(max_workers=6) as ex:
-        for h, sub, got in ex.map(one, [(h, sub) for h in hists for sub in ("seq", "seqre")]):
+        for h, sub, got in ex.map(one, plans):
             for k, ((i, t), g) in enumerate(zip(h, got)):
                 checked += 1
                 verdicts[g[0]] += 1
-                want = alone_res[t]
-                if g == want and (want == model_res[t] or model_res[t][0] in ("OUTOFFUEL",)):
+                want = alone_res[(alone_sub[sub], t)]
+                if g == want and agrees_with_model(sub, t, want):
                     continue
                 # timer-based quiescence: re-run the history (and the program alone) generously before counting
                 g2 = seq_run(b, h, 1200, sub)[k]
-                w2 = seq_run(b, [("x", t)], 1200)[0]
-                if g2 == w2 and (w2 == model_res[t] or model_res[t][0] == "OUTOFFUEL"):
+                w2 = seq_run(b, [("x", t)], 1200, alone_sub[sub])[0]
+                if g2 == w2 and agrees_with_model(sub, t, w2):
                     artefacts += 1
                     continue
                 deviations += 1
@@ -172,7 +232,7 @@ def run(b, ps, tier, seed):
         "distinct_nontrivial": len(distinct),
         "rule": "histories of %d..%d programs drawn from the closed programs of the run suite (accepted and rejected) plus unparseable / non-contractive / empty ones, with repeats; each history runs inside one OS process (`probe seq`), each program also alone; non-trivial = distinct program texts" % hlen,
         "samples": [[i for i, _ in h] for h in hists[:3]],
-        "histories": len(hists), "host_patterns": ["seq: a fresh RuntimeEnvironment per program (as the repository's tests and benchmark driver do)", "seqre: ONE RuntimeEnvironment re-used through InitializeProcesses"], "verdicts_in_histories": dict(verdicts),
+        "histories": len(plans), "host_patterns": ["seqnc: typechecking skipped (--notypecheck), bare-expression programs after late parse failures", "seqopen: accepted open programs that strand goroutines, repeated, then ordinary programs", "seq: a fresh RuntimeEnvironment per program (as the repository's tests and benchmark driver do)", "seqre: ONE RuntimeEnvironment re-used through InitializeProcesses"], "verdicts_in_histories": dict(verdicts),
         "deviations_confirmed": deviations, "cut_short_by_timer_then_ok_on_rerun": artefacts,
     }
     return {"violations": violations, "known": [], "coverage": cov,
